@@ -171,6 +171,11 @@ class _Interp:
         self.sig.update(inputs)
         self.var = {n: env[n] for n, o in self.objs.items() if o.kind == "var" and n in env}
         self.pending = {}
+        # reset_pushed: every push target of the context gets its default at the start of each step
+        for n in prog.push_targets:
+            o = self.objs.get(n)
+            if o is not None and o.default is not None and n in env:
+                self.pending[n] = o.default
         self.pushed = set()
         self.local_now = {}  # local signals constructed in this activation: readable value
         self.frames = [{}]
